@@ -51,6 +51,8 @@ def main():
     mod = load(job['check'])
     kind = job.get('kind', 'block')
     if kind == 'block':
+        if job.get('isolate'):
+            os.environ['VERIF_ISOLATE'] = '1'
         for idx in job['indices']:
             faulthandler.dump_traceback_later(job.get('run_timeout', 600),
                                               exit=True)
@@ -68,11 +70,13 @@ def main():
             emit(res)
         faulthandler.cancel_dump_traceback_later()
     elif kind == 'replay':
+        os.environ['VERIF_ISOLATE'] = '1'
         faulthandler.dump_traceback_later(job.get('run_timeout', 600),
                                           exit=True)
         res = run_case(mod, job['case'])
         emit(res)
     elif kind == 'shrink':
+        os.environ['VERIF_ISOLATE'] = '1'
         from sim import shrink
         faulthandler.dump_traceback_later(job.get('run_timeout', 1800),
                                           exit=True)
